@@ -46,12 +46,14 @@ def buildItems (ws : List String) : Option (List (Item String)) := do
         | [] => none
   go raw doc.children
 
-def stepLine (s : BSt) (line : String) : BSt × String :=
+/-- `feedBytes` = `feedBytesCode P` (the code as it is) unless the driver is started with the argument `stateful`
+(used to validate the prepared post-fix variant against a library built with fixes/C03-utf8-stateful-decode.diff) -/
+def stepLine (feedBytes : BSt → Qx.Bytes → BSt × List (Ev String)) (s : BSt) (line : String) : BSt × String :=
   match words line with
   | ["reset"] => (binit, "ok")
   | "b" :: rest =>
     match fromHex (String.join rest) with
-    | some bs => let r := feedBytesCode P s bs; (r.1, obs r.1.st r.2)
+    | some bs => let r := feedBytes s bs; (r.1, obs r.1.st r.2)
     | none => (s, "bad-op")
   | "t" :: rest =>
     match textOfHex (String.join rest) with
@@ -63,4 +65,5 @@ def stepLine (s : BSt) (line : String) : BSt × String :=
     | none => (s, "violated")
   | _ => (s, "bad-op")
 
-def main : IO Unit := run binit stepLine
+def main (args : List String) : IO Unit :=
+  run binit (stepLine (if args.contains "stateful" then feedBytesStateful P else feedBytesCode P))
